@@ -142,16 +142,17 @@ Definition range128 : list N := map N.of_nat (seq 0 128).
 
 Definition spacing_ok_str (T : tables) : bool :=
   forallb (fun K => forallb (fun l => forallb (fun c =>
-    implb (consistent K l && negb (excluded_str K c)) (junction_ok K c || sp T l c))
+    if consistent K l && negb (excluded_str K c) then junction_ok K c || sp T l c else true)
     range128) range128) reps.
 
 Definition all_preds : list pred := [BConcat; BVarargs; BMinus; BEqual; BLongString].
 
 Definition spacing_ok_brk (T : tables) : bool :=
   forallb (fun p => forallb (fun K => forallb (fun l =>
-    implb (consistent K l && negb (excluded_brk K p))
-          (junction_ok K (pred_char p)
-           || forallb (fun f => implb (first_consistent K f) (br T p f l)) range128))
+    if consistent K l && negb (excluded_brk K p) then
+      (if junction_ok K (pred_char p) then true
+       else forallb (fun f => if first_consistent K f then br T p f l else true) range128)
+    else true)
     range128) reps) all_preds.
 
 Definition spacing_ok (T : tables) : bool := spacing_ok_str T && spacing_ok_brk T.
